@@ -122,6 +122,43 @@ def cmd_run(i, checks):
     save_meta(i, m)
 
 
+def cmd_runiso(i, checks):
+    """like `run`, but against a patched scratch copy of /repo bind-mounted over /repo in a private mount namespace
+    (with private .work, evidence and replays), so that several changes can be tried while other checks run"""
+    m = load_meta(i)
+    d = os.path.join(SEEDED, i)
+    checks = checks or [m['property']]
+    sw, swork, sout = f'/tmp/sw-{i}', f'/tmp/swork-{i}', f'/tmp/sout-{i}'
+    sh(f'rm -rf {sw} {swork} {sout}; mkdir -p {swork} {sout}/evidence {sout}/replays')
+    rc, out = sh(f'rsync -a --exclude target --exclude .git {REPO}/ {sw}/ && git -C {sw} init -q 2>/dev/null; cd {sw} && git apply {d}/patch.diff')
+    assert rc == 0, out
+    sh(f'cp -r {VERIF}/.work/tooltarget {swork}/tooltarget')
+    try:
+        for c in checks:
+            tier = 'quick'
+            if ':' in c:
+                c, tier = c.split(':')
+            t = time.time()
+            inner = (f'mount --bind {sw} /repo && mount --bind {swork} {VERIF}/.work && mount --bind {sout}/evidence {VERIF}/evidence '
+                     f'&& mount --bind {sout}/replays {VERIF}/replays && cd {VERIF} && ./check {c} --tier {tier}')
+            rc, out = sh(f"unshare -m bash -c '{inner}'", cwd=VERIF, timeout=6 * 3600)
+            lines = [l for l in out.splitlines() if l.startswith(('VIOLATION', 'KNOWN', 'ENGINE')) or 'rc=' in l]
+            viol = [l for l in out.splitlines() if l.startswith('VIOLATION')]
+            detail = [l for l in out.splitlines() if l.startswith('  ')][:3]
+            rec = {'exit': rc, 'violations': len(viol), 'first': (detail[0].strip()[:300] if detail else ''),
+                   's': round(time.time() - t)}
+            m = load_meta(i)
+            m['checks'][f'{c}:{tier}'] = rec
+            _, head = sh('git -C /verif log --format=%h -1')
+            m.setdefault('history', []).append(dict(rec, check=f'{c}:{tier}', verif_commit=head.strip(), at=time.strftime('%H:%M')))
+            save_meta(i, m)
+            print(f'{i} {c}:{tier} exit={rc} violations={len(viol)} {round(time.time() - t)}s', flush=True)
+            for l in (viol[:2] + detail[:2] + [x for x in lines if x.startswith('ENGINE')][:3] + ([] if rc in (0, 1) else out.splitlines()[-6:])):
+                print('    ' + l[:400], flush=True)
+    finally:
+        sh(f'rm -rf {sw} {swork} {sout}')
+
+
 def cmd_table():
     import glob
     rows = []
@@ -155,3 +192,5 @@ if __name__ == '__main__':
         cmd_verify(a[1])
     elif a[0] == 'run':
         cmd_run(a[1], a[2:])
+    elif a[0] == 'runiso':
+        cmd_runiso(a[1], a[2:])
